@@ -127,7 +127,9 @@ pub fn mk_lifecycle(p: &Value) -> Arc<Mk> {
 
 pub fn judge_lifecycle(r: &ds::RunResult) -> Option<(String, String)> {
     for l in &r.log {
-        if l.starts_with("idle ") && !(l.contains("blocked:SelectReady") || l.ends_with("finished")) {
+        // idle = blocked in whatever the thread waits with (a select, a plain receive, a condition
+        // variable, a parked thread ...); enabled or running is what costs CPU
+        if l.starts_with("idle ") && !(l.contains(" blocked:") || l.ends_with("finished")) {
             return Some(("busy-when-idle".into(), format!("reloader is not blocked while nothing changes: {l}")));
         }
         if l.starts_with("watcher ") && l.ends_with("alive-after-late-event=true") {
